@@ -1,12 +1,19 @@
 /-
   Props/C14.lean — C14 "substituting parameters commutes with evaluation".
-  Property theorems only; proofs in Proofs/Param.lean, Proofs/ParamGates.lean.
+  Property theorems only; proofs in Proofs/Param.lean, Proofs/ParamGates.lean and (the executable
+  polynomial instance) Proofs/PolyOrder.lean, PolySem.lean, PolyRing.lean, PolyDiagram.lean.
 
   PARTIAL.  What is proved, about Model/Param.lean:
    * `eval_natural` — for box data in ANY commutative ring and ANY ring homomorphism σ commuting
      with conjugation (a substitution of values, symbols or expressions is one), evaluating the
      substituted diagram equals substituting in the evaluation: induction over the layers of the
      reference evaluator (it uses only Σ and ·);
+   * the EXECUTABLE instance satisfies its hypotheses: the model's integer polynomials in normal
+     form are a commutative ring under the model's own `add/mul/neg/0/1` (`poly_ring_laws`,
+     instance `CommRing NPoly`; `poly_normal_forms_closed`: the operations keep the normal form;
+     `normal_form_unique`), the model's substitution is a ring homomorphism of it
+     (`subst_is_ring_hom`), hence `eval_natural_poly` — now a theorem, for every polynomial
+     diagram (data in normal form or not) — and `eval_natural_poly_simultaneous`;
    * `subs_preserves_*` — per box class, the attribute record (kind, arity, dagger flag,
      mixedness) rebuilt by the class's own `subs` AS THE CODE WRITES IT equals the original for
      every record the class can construct; for `Scalar` and `ClassicalGate` this is FALSE on the
@@ -16,12 +23,13 @@
      box's name, dom, cod and dagger flag;
    * `free_symbols_spec`, `subs_all_closed`, `lambdify_eq_subs`.
   What is NOT proved: that sympy's `subs`/`lambdify` ARE ring homomorphisms on sympy
-  expressions, and the ring laws of the executable instance `Poly` (hence `eval_natural_poly`
-  below is only a `Prop`, checked by the correspondence streams `psubseval`/`pevalsubs` on every
-  run).  Tensor.subs / CQMap.subs on the evaluated array (findings F5a, F5f), the numpy/sympy
-  dispatch of `Parametrized.modules` (F5b) and zx `lambdify` (F5e) are oracle-only.
+  expressions (sympy's polynomial arithmetic is compared with the model's on every run by the
+  streams `psubseval`/`pevalsubs`).  Tensor.subs / CQMap.subs on the evaluated array (findings
+  F5a, F5f), the numpy/sympy dispatch of `Parametrized.modules` (F5b) and zx `lambdify` (F5e)
+  are oracle-only.
 -/
 import Proofs.ParamGates
+import Proofs.PolyDiagram
 import Mathlib.Data.ZMod.Basic
 
 namespace DV.C14
@@ -34,11 +42,50 @@ theorem eval_natural {R S : Type} [CommRing R] [CommRing S] [HasConj R] [HasConj
     (d.mapData σ).eval i k = σ (d.eval i k) :=
   congrFun (congrFun (evalLayers_natural σ hconj d.layers) i) k
 
-/-- The executable instance of the same statement (x_i := q on integer polynomials).  NOT
-    proved (it needs the ring laws of `Poly`); compared with sympy on every run. -/
-def eval_natural_poly : Prop :=
-  ∀ (d : PolyDiagram) (v : Nat) (q : Poly) (i k : Nat),
-    (d.subs v q).eval i k = Poly.subst1 v q (d.eval i k)
+/-! ### the executable instance: integer polynomials in normal form -/
+
+/-- The model's operations keep the normal form (sorted by `Mono.cmp`, trimmed monomials, no zero
+    coefficient); `mul` and `subst` even produce it from arbitrary term lists. -/
+theorem poly_normal_forms_closed (p q : Poly) (hp : p.WF) (hq : q.WF) :
+    (0 : Poly).WF ∧ (1 : Poly).WF ∧ (p + q).WF ∧ (p * q).WF ∧ (-p).WF
+      ∧ (∀ c, (Poly.const c).WF) ∧ (∀ i, (Poly.var i).WF) ∧ (∀ σ, (Poly.subst σ p).WF)
+      ∧ (∀ v, (Poly.deriv v p).WF) :=
+  ⟨Poly.zero_wf, Poly.one_wf, Poly.add_wf hp hq, Poly.mul_wf p q, Poly.neg_wf hp,
+   Poly.const_wf, Poly.var_wf, fun σ => Poly.subst_wf σ p, fun v => Poly.deriv_wf v p⟩
+
+/-- The ring operations of `NPoly` ARE the model's operations on the underlying term lists. -/
+theorem npoly_ops_are_model_ops (a b : NPoly) :
+    (a + b).1 = a.1 + b.1 ∧ (a * b).1 = a.1 * b.1 ∧ (-a).1 = -a.1
+      ∧ (0 : NPoly).1 = 0 ∧ (1 : NPoly).1 = 1 := ⟨rfl, rfl, rfl, rfl, rfl⟩
+
+/-- **The model's polynomials in normal form are a commutative ring** (the instance
+    `CommRing NPoly` of Proofs/PolyRing.lean; here its laws, spelled out). -/
+theorem poly_ring_laws (a b c : NPoly) :
+    a + b + c = a + (b + c) ∧ a + b = b + a ∧ 0 + a = a ∧ -a + a = 0
+      ∧ a * b * c = a * (b * c) ∧ a * b = b * a ∧ 1 * a = a ∧ a * (b + c) = a * b + a * c :=
+  ⟨add_assoc a b c, add_comm a b, zero_add a, neg_add_cancel a, mul_assoc a b c, mul_comm a b,
+   one_mul a, mul_add a b c⟩
+
+/-- Normal forms are canonical: two of them denoting the same polynomial (in Mathlib's
+    `MvPolynomial ℕ ℤ`) are the same term list. -/
+theorem normal_form_unique (p q : Poly) (hp : p.WF) (hq : q.WF) (h : sem p = sem q) : p = q :=
+  sem_inj hp hq h
+
+/-- The model's simultaneous substitution is a ring homomorphism. -/
+theorem subst_is_ring_hom (σ : Nat → Poly) :
+    ∃ f : NPoly →+* NPoly, ∀ a : NPoly, (f a).1 = Poly.subst σ a.1 :=
+  ⟨NPoly.substHom σ, fun _ => rfl⟩
+
+/-- **The executable instance** of `eval_natural` (x_v := q on integer polynomials), for every
+    polynomial diagram: `eval_natural` at the ring `NPoly` and the homomorphism `substHom`. -/
+theorem eval_natural_poly (d : PolyDiagram) (v : Nat) (q : Poly) (i k : Nat) :
+    (d.subs v q).eval i k = Poly.subst1 v q (d.eval i k) :=
+  eval_natural_poly_proof d v q i k
+
+/-- …and for simultaneous substitutions (lists of pairs). -/
+theorem eval_natural_poly_simultaneous (σ : Nat → Poly) (d : PolyDiagram) (i k : Nat) :
+    (d.mapData (Poly.subst σ)).eval i k = Poly.subst σ (d.eval i k) :=
+  eval_natural_subst σ d.layers i k
 
 /-- `subs` on a tensor diagram keeps the domain, the number of layers, and every layer's
     whiskers and box name, dom, cod, dagger flag. -/
@@ -192,5 +239,11 @@ def p0 : PolyDiagram :=
                   box := { dom := [], cod := [2], dagger := false,
                            data := [Poly.var 0 * Poly.var 1, 1] } } ] }
 example : (PolyDiagram.subs 0 (Poly.const 2) p0).eval 0 0 = Poly.const 2 * Poly.var 1 := by decide
+example : (PolyDiagram.subs 0 (Poly.var 1 + 1) p0).eval 0 0
+    = Poly.subst1 0 (Poly.var 1 + 1) (p0.eval 0 0) := eval_natural_poly p0 0 (Poly.var 1 + 1) 0 0
+example : Poly.subst1 0 (Poly.var 1 + 1) (p0.eval 0 0) = Poly.var 1 * Poly.var 1 + Poly.var 1 := by
+  decide
+example : (Poly.var 0 * Poly.var 1).WF := Poly.mul_wf _ _
+noncomputable example : CommRing NPoly := inferInstance
 
 end DV.C14
